@@ -456,6 +456,14 @@ def explore_orders(job: dict) -> dict:
     return col.dump()
 
 
+def explore_fuzz(job: dict) -> dict:
+    """Coverage-guided campaign (atheris / libFuzzer, structure-aware mutator); the target applies check_payload(), the repeat-decode
+    comparison and (every 4th input) the sequence-number siblings to every input that decodes."""
+    from vf import fuzz
+
+    return fuzz.run_campaign(dict(job, oracle="c05"))
+
+
 def run(ctx: Ctx, col: Collector) -> None:
     from vf.gen import frames as G
 
@@ -474,7 +482,15 @@ def run(ctx: Ctx, col: Collector) -> None:
     ctx.parallel(sweep_corpus_digits, [{"lo": i, "step": ctx.workers} for i in range(ctx.workers)], col)
     ctx.parallel(explore_arrays, ctx.shards(ctx.n(8_000, 300_000)), col)
     ctx.parallel(explore_orders, ctx.shards(ctx.n(640, 16_000), per_shard_min=10), col)
-    ctx.floors = [("decode:ok", "", 0.2), ("array:n=2-8", "", 0.03), ("mutant-decode:ok", "mutant", 0.3)]
+    from vf import fuzz
+
+    ctx.floors = []
+    if fuzz.available():
+        ctx.parallel(explore_fuzz, [{"runs": ctx.n(6_000, 1_500_000), "shard": i, "of": 15, "empty": i == 15} for i in range(16)], col)
+        ctx.floors = [("fuzz-decode:ok", "fuzz", 0.03)]
+    else:
+        col.note("atheris not importable: coverage-guided campaign skipped")
+    ctx.floors += [("decode:ok", "", 0.2), ("array:n=2-8", "", 0.03), ("mutant-decode:ok", "mutant", 0.3)]
 
 
 def replay(case: dict) -> list[tuple[dict, str]]:
